@@ -22,6 +22,7 @@ import PoetryVerif.Proofs.EqHashParse
 import PoetryVerif.Proofs.EqHashAlgOps
 import PoetryVerif.Proofs.EqHashUnionAllows
 import PoetryVerif.Proofs.EqHashDomain
+import PoetryVerif.Proofs.EqHashRelAllows
 import PoetryVerif.Proofs.VersionParse
 import PoetryVerif.Proofs.VRangeSpecSet
 import PoetryVerif.Proofs.VRangeTextU
@@ -180,17 +181,55 @@ example : let V := Version.mk' 0 [1, 0] none none none (some ["local"])
   intro V
   refine ⟨by decide +kernel, by decide, ⟨{ Version.mk' 0 [1, 0, 0] none none none (some ["local"]) with text := "1.0.0+LOCAL" }, by decide +kernel, by decide, by decide⟩⟩
 
-/-- the full statement: `allows` itself, unions included.  Exact boundary of what is proved: every pair of non-unions
-(`constraint_beq_interchangeable_partial`, any bounds, any probe); unions member by member (same theorem); unions through
-`allows` in the regular setting (`constraint_beq_interchangeable_regular`: well-formed, bounds mutually regular and not
-local — all decidable, `RegB.of_check`); `!=V` for every `V` (`constraint_beq_interchangeable_ne`).  Not proved: unions
-other than `!=V` that have a local build among their bounds or two bounds of one release that are not equal — there
-`allows` runs `VersionRange().difference(union)` and its congruence in the bounds is open.  No counterexample: 33 000
-equal pairs of re-spelled constraints (10 500 unions with bounds such as `1.0+local` / `1.0.0+LOCAL`, `1.0.post1+x`,
-`1.0a1+z`) evaluated on the real code on 29 probes agree, as do the pools of the check. -/
+/-- the full statement: `allows` itself, every constraint shape (unions with local builds or same-release bounds
+included), every probe -/
 def constraint_interchangeable_full_statement : Prop :=
   ∀ a b : VC, vcNonDegenerate a = true → vcNonDegenerate b = true → a.wfB → b.wfB → Marker.VC.eqv a b = true →
     ∀ v, a.allows v = b.allows v
+
+/-- **the full statement is a theorem: equal constraints admit the same versions through `allows`** — also the branch
+of `VersionUnion.allows` that runs `VersionRange().difference(union)` (`excludes_single_version`), whatever the bounds.
+Proof: a structural relation (same constructors, bounds with equal comparison keys and equal `is_local()`, same
+inclusion flags) is preserved by every function on the way — `Version.allows` / `VersionRange.allows` in both
+arguments, `allowed_max`, `allows_lower/higher`, `is_strictly_lower/higher`, `is_adjacent_to`, `_cmp`, `<`, the stable
+sort, `allows_any`, the single-range union, the merge loop, `VersionUnion.of`, the three `difference` functions, the loop
+of `VersionRange.difference(VersionUnion)`, `_inverted`, `excludes_single_version` (Proofs/EqHashRel*.lean, five layers,
+none false) — and equal well-formed constraints without degenerate ranges are related. -/
+theorem constraint_beq_interchangeable : constraint_interchangeable_full_statement :=
+  fun a b ha hb hwa hwb h v => vc_allows_congr a b ha hb hwa hwb h v
+
+/-- … and the probe may be replaced by an equal probe as well -/
+theorem constraint_beq_interchangeable_probe (a b : VC) (ha : vcNonDegenerate a = true) (hb : vcNonDegenerate b = true)
+    (hwa : a.wfB) (hwb : b.wfB) (h : Marker.VC.eqv a b = true) (v w : Version) (hv : v.wf = true) (hw : w.wf = true)
+    (hvw : Version.eqv v w = true) : a.allows v = b.allows w :=
+  vcAllows_congr2 (VCRel_of_eqv ha hb hwa hwb h) (sameBound_of_eqv hv hw hvw)
+
+/-- the same for `excludes_single_version` / `is_simple()` and `_inverted`: both raise the same exception or return
+related results -/
+theorem constraint_beq_same_inverse (as bs : List RC) (ha : as.all rcNonDegenerate = true)
+    (hb : bs.all rcNonDegenerate = true) (hwa : ∀ c ∈ as, c.wfB) (hwb : ∀ c ∈ bs, c.wfB)
+    (h : Marker.VC.eqv (.union as) (.union bs) = true) :
+    PRel VCRel (VC.inverted as) (VC.inverted bs) ∧
+    PRel ORel (VC.excludedSingleVersion as) (VC.excludedSingleVersion bs) := by
+  rw [vc_eqv_union] at h
+  have hl := LRel_of_eqv ha hb hwa hwb h
+  exact ⟨inverted_congr hl, excludedSingleVersion_congr hl⟩
+
+/-- for constraints coming out of the parser, no guard at all -/
+theorem parsed_constraint_interchangeable (s t : String) (a b : VC) (ha : VParser.parseConstraint s = .ok a)
+    (hb : VParser.parseConstraint t = .ok b) (h : Marker.VC.eqv a b = true) (v : Version) :
+    a.allows v = b.allows v := by
+  have wa := parseConstraint_WF s a ha
+  have wb := parseConstraint_WF t b hb
+  exact vc_allows_congr a b (vcND_of_vcWF wa) (vcND_of_vcWF wb) (fun r hr => RC.WF.wfB (wa r hr))
+    (fun r hr => RC.WF.wfB (wb r hr)) h v
+
+/-- a union with a local build among its bounds that is NOT of the `!=V` shape, and bounds of one release that are
+not equal (`1.0` / `1.0.post1`): outside every earlier partial theorem, inside this one -/
+example : ∃ a b, VParser.parseConstraint "<1.0+local || >=1.0.post1" = .ok a ∧
+    VParser.parseConstraint "<1.0.0+LOCAL || >=1.0-1" = .ok b ∧ Marker.VC.eqv a b = true ∧ a ≠ b ∧
+    (∃ rs, a = .union rs) := by
+  refine ⟨_, _, rfl, rfl, by decide +kernel, by decide +kernel, _, rfl⟩
 
 /-- **`intersect` never returns a degenerate `VersionRange`** (range ∩ range, range ∩ version, version ∩ version, any
 operands): where the two ends coincide it returns the `Version` or fails its assertion -/
